@@ -55,7 +55,7 @@ pub fn run(rng: &mut Rng, out: &mut Out, thorough: bool, _variant: &str) {
                 grid.push((t, k));
             }
         }
-        grid.push((4, 20000));
+        grid.push((4, 17000));
         for &(t, k) in grid.iter() {
             {
                 let style = rng.below(5);
